@@ -1,5 +1,6 @@
 """Per-check context: verdict bookkeeping, known findings, evidence, replay files."""
 import json
+import pathlib
 import os
 import re
 import shlex
@@ -159,8 +160,11 @@ class Ctx:
             if n < self.MAX_VIOL_LINES:
                 lines.append(f"VIOLATION property={self.pid} replay={path.relative_to(ROOT)}  # {str(key)[:160]}")
             n += 1
-        evp = ROOT / "evidence" / f"{self.pid}.json"
-        evp.parent.mkdir(exist_ok=True)
+        # (dev tools that run checks against deliberately broken scratch trees divert the evidence: evidence/ only ever holds
+        # what a run against the registered tree observed)
+        evdir = os.environ.get("VERIF_EVIDENCE_DIR")
+        evp = (pathlib.Path(evdir) if evdir else ROOT / "evidence") / f"{self.pid}.json"
+        evp.parent.mkdir(parents=True, exist_ok=True)
         schema = json.loads(open("/root/.vp/EVIDENCE.schema.json").read()) \
             if os.path.exists("/root/.vp/EVIDENCE.schema.json") else None
         text = json.dumps(ev, indent=1, ensure_ascii=True, default=str)
